@@ -8,6 +8,9 @@ Targeted generators for the hand-written pairs the property names (each tied to 
 and a broad oracle: a pool of templates covering every registered tag, rendered under every environment feature
 flag with several data sets, synchronously and asynchronously; get_template vs get_template_async; analyze vs
 analyze_async.  Oracle everywhere: same text or same exception class, same names, same analysis.
+Three more families live in props/_pairs2.py: template inheritance (PairInherit.v), name -> bound template (PairLoad.v) and
+the two static-analysis walks (PairAnalyze.v); each compares the two APIs on ordinary inputs and each API with its own
+model copy on instrumented inputs that show which API a loader or data object was reached through.
 """
 
 from __future__ import annotations
@@ -19,6 +22,7 @@ import tempfile
 
 from ..core import Check, classify_exc, run_async
 from ..g import g_N, g_Z, g_bool, g_list, g_nat, g_opt, g_str
+from . import _pairs2
 from . import c17 as P
 
 IMPORTS = "PyPrims PairSync"
@@ -312,7 +316,18 @@ def run(ck: Check) -> None:
         "variable or read each other x 4 partial bodies x 5 loop-limit / nesting scenes), render (with / for, same axes) and call (3 "
         "signatures x 3 positional x 4 keyword sets x 3 bodies x 5 scenes), each run through both APIs with a recording mapping that "
         "logs every global lookup in order (sampled in the quick tier, exhaustive in the thorough tier).  Non-trivial = the case "
-        "reaches the named mechanism; distinct = distinct case."
+        "reaches the named mechanism; distinct = distinct case.  Inheritance: chains leaf -> (mid ->) (mid2 ->) base, every level "
+        "overriding block b1 with one of 7 bodies (text, block.super once or twice, data items, an include, a nested block) or not, "
+        "5 base bodies, 2 partial bodies (exhaustive for one hop, and for two hops in the thorough tier; sampled otherwise); "
+        "31 hand-written cases (required blocks, missing / circular / duplicate / double extends, super outside a block and "
+        "across three levels, includes inside super, an extending partial included at top level and from inside a block); "
+        "seeded random template families (180 quick / 2000 thorough).  Loading: 11 loader trees (dict, a user loader with front "
+        "matter, file system with and without ext and with two search directories, choice loaders nested up to three deep, the "
+        "empty choice) x 7 names x 3 globals arguments x 2 environment globals x unparsable sources, get_template / "
+        "get_template_async / analyze_tags / analyze_tags_async (exhaustive); seeded histories that mix the two APIs against one "
+        "caching loader with edits in between (60 quick / 300 thorough).  Analysis: 23 hand-written template families and seeded "
+        "random ones (90 quick / 800 thorough) over probe / assign / for / block / snippet / include / render / render-snippet / "
+        "extends, each with include_partials true and false."
     )
     ck.exhaustive = True
     ck.trusted_base = [
@@ -322,8 +337,15 @@ def run(ck: Check) -> None:
         "model function yields)",
         "include / render / call are modelled as sequences of context operations (PairTags.v): scope stack, evaluation log, copy flags, "
         "loop-limit arithmetic; expression values are ints / int lists / undefined, partial bodies are six probe statements",
-        "no model for analyze / analyze_async, extends / block / block.super and the remaining tags: their two copies are compared on "
-        "the implementation only (oracle); the caching-loader pair is modelled and proved in C23",
+        "extends / block / block.super (PairInherit.v): nodes are text, one data item, block.super, block, extends, include; no resource "
+        "limits, strict mode, no blank-block rule, no autoescape; observed through a recording loader (get_source vs get_source_async) "
+        "and a data object whose items read differently through __getitem__ and __getitem_async__ (instruments, not property inputs)",
+        "loading (PairLoad.v): relative normalised names; sources are numbers (text identity); parse outcome is a list of "
+        "unparsable sources; the caching mixin itself is CachingLoader.v (C23), used here for the API-mix theorem",
+        "analysis (PairAnalyze.v): the walk over probe / assign / for / block / snippet / include / render / extends nodes with "
+        "literal names and literal arguments; Partial.key hashes are modelled as the hashed tuples; identity of snippet nodes as "
+        "(number of the load, position); ast.BlockNode containers flattened",
+        "no model for the remaining tags under both APIs and for resource limits under both APIs: oracle only",
     ]
     ck.assumptions = [
         "render data is JSON-like plus one drop with a __liquid__ hook; no object with __getitem_async__ and no filter with "
@@ -335,6 +357,9 @@ def run(ck: Check) -> None:
     _loaders(ck)
     _broad(ck)
     _tags(ck)
+    _pairs2.run_inherit(ck)
+    _pairs2.run_loaders2(ck)
+    _pairs2.run_analyze(ck)
 
 
 def _paths(ck: Check) -> None:
@@ -952,6 +977,14 @@ def replay(data) -> int:
         bad = s != a
     elif typ == "tags":
         bad = replay_tags(case)
+    elif typ == "inherit":
+        bad = _pairs2.replay_inherit(case)
+    elif typ == "analyze2":
+        bad = _pairs2.replay_analyze(case)
+    elif typ == "analyze2-stability":
+        bad = _pairs2.replay_stability(case)
+    elif typ in ("load2", "mix"):
+        bad = _pairs2.replay_load(case)
     else:
         print("unknown replay case", case)
         return 1
